@@ -47,7 +47,7 @@ end
 def errCode : Err → String
   | .xmlnsUri => "xu" | .xmlRedecl => "xr" | .xmlnsChanged => "xc" | .alreadyDefined => "ad"
   | .invalidDecl => "iv" | .noNamespace => "nf" | .eofInStart => "es" | .unexpStart => "us"
-  | .unexpMain => "um" | .unexpEnd => "ue" | .currentMismatch => "cm"
+  | .unexpMain => "um" | .unexpEnd => "ue" | .currentMismatch => "cm" | .secondDoctype => "sd"
 
 def dumpState (s : State) : String :=
   let errs := s.errors.reverse.map errCode
